@@ -241,4 +241,71 @@ with acc_cl (alts : clist) {struct alts} : N -> acceptor :=
   | CCons d s r => fun disc bs => if disc =? d then acc s bs else acc_cl r disc bs
   end.
 
+(* ---- nesting depth of the first data item, in one cheap pass (no item is built, no length is recomputed);
+   None when the item is not well-formed.  Used as the guard of the refusals for the types whose recursive
+   schemas are unrolled to a small depth. ---- *)
+Fixpoint ldrop (bs : bytes) (n : N) : option bytes :=
+  match bs with
+  | [] => if n =? 0 then Some [] else None
+  | _ :: t => if n =? 0 then Some bs else ldrop t (n - 1)
+  end.
+Fixpoint litems (p : bytes -> option (nat * bytes)) (fuel : nat) (n : N) (d : nat) (bs : bytes) : option (nat * bytes) :=
+  match fuel with
+  | O => None
+  | S f => if n =? 0 then Some (d, bs)
+           else match p bs with Some (d1, r) => litems p f (n - 1) (Nat.max d d1) r | None => None end
+  end.
+Fixpoint luntil (p : bytes -> option (nat * bytes)) (fuel : nat) (d : nat) (bs : bytes) : option (nat * bytes) :=
+  match fuel with
+  | O => None
+  | S f => match is_break bs with
+           | Some r => Some (d, r)
+           | None => match p bs with Some (d1, r) => luntil p f (Nat.max d d1) r | None => None end
+           end
+  end.
+Fixpoint lchunk_skip (m : N) (fuel : nat) (bs : bytes) : option bytes :=
+  match fuel with
+  | O => None
+  | S f => match is_break bs with
+           | Some r => Some r
+           | None => match lhead m bs with
+                     | Some (Arg n, r) => match ldrop r n with Some r' => lchunk_skip m f r' | None => None end
+                     | _ => None
+                     end
+           end
+  end.
+Fixpoint ldepth (fuel : nat) (bs : bytes) : option (nat * bytes) :=
+  match fuel with
+  | O => None
+  | S f =>
+    match decode_head bs with
+    | None => None
+    | Some (m, a, r) =>
+        if (m =? 0) || (m =? 1) then (match a with Arg _ => Some (1%nat, r) | Indef => None end)
+        else if (m =? 2) || (m =? 3) then
+          (match a with
+           | Arg n => match ldrop r n with Some r' => Some (1%nat, r') | None => None end
+           | Indef => match lchunk_skip m f r with Some r' => Some (1%nat, r') | None => None end
+           end)
+        else if m =? 4 then
+          (match a with
+           | Arg n => match litems (ldepth f) f n O r with Some (d, r') => Some (S d, r') | None => None end
+           | Indef => match luntil (ldepth f) f O r with Some (d, r') => Some (S d, r') | None => None end
+           end)
+        else if m =? 5 then
+          (match a with
+           | Arg n => match litems (ldepth f) f (2 * n) O r with Some (d, r') => Some (S d, r') | None => None end
+           | Indef => match luntil (fun b => match ldepth f b with
+                                             | Some (d1, b1) => match ldepth f b1 with Some (d2, b2) => Some (Nat.max d1 d2, b2) | None => None end
+                                             | None => None end) f O r with Some (d, r') => Some (S d, r') | None => None end
+           end)
+        else if m =? 6 then
+          (match a with Arg _ => match ldepth f r with Some (d, r') => Some (S d, r') | None => None end | Indef => None end)
+        else (match a with Arg _ => Some (1%nat, r) | Indef => None end)
+    end
+  end.
+(* at most [k] deep (or not well-formed at all) *)
+Definition shallow (k : nat) (bs : bytes) : bool :=
+  match ldepth (S (length bs)) bs with Some (d, _) => (d <=? k)%nat | None => true end.
+
 Definition accepts (s : schema) (bs : bytes) : bool := match acc s bs with Some _ => true | None => false end.
